@@ -10,11 +10,13 @@ sys.path.insert(0, os.path.join(HERE, "lib"))
 props = [json.loads(l) for l in open(os.path.join(VERIF, "properties.jsonl")) if l.strip()]
 ids = [p["id"] for p in props]
 na = json.load(open(os.path.join(HERE, "not_applicable.json")))
+# a property is claimed once it has a check module AND is no longer listed in
+# not_applicable.json (the lead removes it there when the check is integrated)
 checks = []
 claimed = []
 for pid in ids:
     path = os.path.join(HERE, "props", pid + ".py")
-    if not os.path.exists(path):
+    if not os.path.exists(path) or pid in na:
         continue
     spec = importlib.util.spec_from_file_location("prop_" + pid, path)
     mod = importlib.util.module_from_spec(spec)
